@@ -510,8 +510,38 @@ fn sizes(a: &[&str], oracle: &mut Vec<String>) -> String {
         let mut w = Archive::write_header(Vec::new())?;
         let cnt = w.add_entry(built)?;
         let bytes = w.finalize()?;
-        let count_ok = cnt + 40 == bytes.len();
+        let mut count_ok = cnt + 40 == bytes.len();
         let part_ok = part_len + 40 == bytes.len();
+        // the same counts through a sink that implements only write / flush (the default write_vectored takes ONE of
+        // several buffers: seeded C18-6, a gathered write whose fallback bytes were not counted), for add_entry and
+        // add_entry_part, and through the solid writer, whose stream is such a sink (stored, not encrypted: the SDAT
+        // payloads are the stream, so their total is the sum of the returned counts)
+        {
+            struct Plain(Vec<u8>);
+            impl Write for Plain {
+                fn write(&mut self, b: &[u8]) -> io::Result<usize> {
+                    let k = b.len().min(7 + self.0.len() % 5); // and takes writes only in part
+                    self.0.extend_from_slice(&b[..k]);
+                    Ok(k)
+                }
+                fn flush(&mut self) -> io::Result<()> {
+                    Ok(())
+                }
+            }
+            let mut ar = Archive::read_header(&bytes[..])?;
+            let e = match ar.entries().next() { Some(Ok(ReadEntry::Normal(e))) => e, _ => return Err(io::Error::other("re-read")) };
+            let mut w1 = Archive::write_header(Plain(Vec::new()))?;
+            let c1 = w1.add_entry(e.clone())?;
+            let c2 = w1.add_entry_part(EntryPart::from(e.clone()))?;
+            let out1 = w1.finalize()?.0;
+            count_ok &= c1 == cnt && c2 == cnt && 2 * cnt + 40 == out1.len();
+            let mut ws = Archive::write_solid_header(Vec::new(), WriteOptions::store())?;
+            let s1 = ws.add_entry(e.clone())?;
+            let s2 = ws.add_entry(e)?;
+            let outs = ws.finalize()?;
+            let sdat: usize = scan(&outs).unwrap_or_default().iter().filter(|(_, t, _)| t == b"SDAT").map(|(_, _, d)| d.len()).sum();
+            count_ok &= s1 == cnt && s2 == cnt && sdat == 2 * cnt;
+        }
         // re-read
         let mut ar = Archive::read_header(&bytes[..])?;
         let e = match ar.entries().next() { Some(Ok(ReadEntry::Normal(e))) => e, _ => return Err(io::Error::other("re-read")) };
